@@ -33,6 +33,9 @@ type C18Case struct {
 	// does not exist. The same invocation is run with and without -log in two
 	// fresh worlds; status and what is at the output path must agree.
 	LogDiff bool `json:"log_diff,omitempty"`
+	// LinkOut: the package directory holds a symbolic link "current" to
+	// elsewhere/releases/v1 and -out goes through it and "..".
+	LinkOut bool `json:"link_out,omitempty"`
 }
 
 var c18Priors = []string{"none", "same", "stale", "empty", "foreign"}
@@ -75,6 +78,7 @@ func genC18(cfg Config, ws *WorldSet, accepted []int, i int) C18Case {
 		absPkgDir = "{W}/elsewhere/modlink" + strings.TrimPrefix(pkgDir, "{W}/mod")
 	}
 	// the -out name varies too: the log path is derived from it
+	linkOut := false
 	outName := sim.Pick(r, []string{"zz_custom.go", "zz_dialog.go", "out.gen.go", "zz.out.go", "logo.go", "generated_code.go"})
 	switch c18Outs[ok] {
 	case "same-dir":
@@ -93,12 +97,25 @@ func genC18(cfg Config, ws *WorldSet, accepted []int, i int) C18Case {
 		// physical directory, which is what "the path the user gave" means
 		up, _ := filepath.Rel(strings.TrimPrefix(physCwd, "{W}"), "/outside/"+outName)
 		iv.OutArg = up
+		if r.Bool() {
+			// ".." right after a directory that is a symbolic link: <pkg>/current points
+			// to elsewhere/releases/v1, so current/../x is elsewhere/releases/x for the
+			// kernel (and <pkg>/x only for someone who collapses the path lexically)
+			linkOut = true
+			iv.OutArg = absPkgDir + "/current/../" + outName
+			if canRel && r.Bool() {
+				iv.OutArg = rel("current/../" + outName)
+			}
+		}
 	}
 	iv.OutPath = ResolveOut(physCwd, in, gofile, strings.Replace(iv.OutArg, "{W}/elsewhere/modlink", "{W}/mod", 1))
 	if iv.OutArg == "" {
 		iv.OutPath = ResolveOut(filepath.Dir(setup), filepath.Base(setup), "", "")
 	}
-	c := C18Case{World: world, Inv: iv, Form: c18Forms[fm], OutKind: c18Outs[ok], Canon: ws.Canon[wi].Out, Bin: "plain"}
+	if linkOut {
+		iv.OutPath = "{W}/elsewhere/releases/" + outName
+	}
+	c := C18Case{World: world, Inv: iv, Form: c18Forms[fm], OutKind: c18Outs[ok], Canon: ws.Canon[wi].Out, Bin: "plain", LinkOut: linkOut}
 	// rotate systematically so that every (flag set, prior) pair occurs for every world
 	c.Prior = c18Priors[(fs+ok+fm+(i/per))%len(c18Priors)]
 	if r.Chance(1, 3) {
@@ -186,13 +203,19 @@ func execC18(env *sim.Env, c C18Case) CaseResult {
 		steps = append(steps, Step{Op: "write", Path: iv.OutPath, Data: []byte("package " + pkgNameOf(c.World.Files[c.World.Setup]) + "\n\n// Placeholder was written by hand.\nvar Placeholder = 1\n")})
 	}
 	steps = append([]Step{{Op: "symlink", Path: "{W}/elsewhere/modlink", Data: []byte("{W}/mod")}}, steps...)
+	nPre := 0
+	if c.LinkOut {
+		pre := []Step{{Op: "mkdir", Path: "{W}/elsewhere/releases/v1"}, {Op: "symlink", Path: filepath.Dir("{W}/"+c.World.Setup) + "/current", Data: []byte("{W}/elsewhere/releases/v1")}}
+		steps = append(pre, steps...)
+		nPre = len(pre)
+	}
 	steps = append(steps, run)
 	rsAll := ExecSteps(env, root, steps, st)
 	rs := rsAll[len(rsAll)-1:]
 	r := &rs[0]
 	prior, priorExists := []byte(nil), false
-	if len(steps) > 2 {
-		prior, priorExists = steps[1].Data, true
+	if len(steps) > 2+nPre {
+		prior, priorExists = steps[1+nPre].Data, true
 	}
 	otherDir := c.OutKind == "subdir" || c.OutKind == "dotdot-outside"
 	if r.Err != nil || r.Obs == nil || strings.HasPrefix(r.Obs.Status, "starterr") {
